@@ -16,9 +16,12 @@ def run(ctx):
     q = ctx.quick
 
     # ---- 1. words ------------------------------------------------------------------------------------------------
-    ec.selfcheck_words(ctx)                                  # the limb library against TLC's own arithmetic
+    join_selfcheck = ec.selfcheck_words(ctx)                 # the limb library against TLC's own arithmetic (background)
     events, summary = ec.record_words(ctx, 1000 if q else 6000, 4 if q else 40, "main")
     demo1 = ec.words_binding_demo(ctx, events) if events else "skipped"
+    for e in [x for x in events if x["op"] in ("SDIV", "SAR")][7:40:29]:
+        ctx.sample({"instruction": e["op"], "a": ec.limbs_hex(e["a"]), "b": ec.limbs_hex(e["b"]),
+                    "real_interpreter_result_equal_to_spec": ec.limbs_hex(e["r"])})
     ec.validate_words(ctx, events, "main", chunks=2 if q else 4)
 
     # ---- 2. frames -----------------------------------------------------------------------------------------------
@@ -36,9 +39,11 @@ def run(ctx):
         ec.replay_programs(ctx, behs, prof, stats)
         del behs
     # random programs over the union of all alphabets (3 contracts, scripts <= 3, nesting <= 3)
-    behs, r = ec.export_programs(ctx, "mix", simulate="num=%d" % (400 if q else 25000), depth=10, timeout=900 if q else 3000)
+    behs, r = ec.export_programs(ctx, "mix", simulate="num=%d" % (400 if q else 4000), depth=10, timeout=900 if q else 3000)
     ec.replay_programs(ctx, behs, "mix", stats)
     del behs
+
+    join_selfcheck()
 
     ctx.cov["binding_demo"] = demo1 + "; " + (demo2 or "")
     ctx.cov["word_vectors"] = summary.get("vectors", 0)
